@@ -202,6 +202,10 @@ func typeNameTokens(text string) map[string]int {
 	defined, identified := map[string]bool{}, map[string]bool{}
 	for _, loc := range reTypeDefLine.FindAllStringSubmatchIndex(text, -1) {
 		name := norm(text[loc[2]:loc[3]])
+		if name == `""` {
+			// `%"" = type ...` defines an unnamed type, printed under its number
+			continue
+		}
 		defined[name] = true
 		rest := text[loc[1]:]
 		if strings.HasPrefix(rest, "{") || strings.HasPrefix(rest, "<{") || strings.HasPrefix(rest, "opaque") {
